@@ -20,7 +20,7 @@ import tomllib
 from ..flow import arg_origins, origins
 from ..locks import analyse, classes_of
 from ..loops import recursive_sccs, unexplained_loops
-from ..mir import op_const, op_local, try_edges
+from ..mir import op_place, op_const, op_local, try_edges
 from ..panic_allow import enumerate_reach, interval
 from ..util import (POLL, assigns_const_to, bool_edges, call_true_false_edges, polls, result_return_kinds, switches_on,
                     unreachable_without, where)
@@ -67,6 +67,17 @@ def duration_lower_bound(body, op):
     l = op_local(op)
     if l is None:
         return None
+    # `let pause = Duration::from_secs(..); sleep(pause)`: follow whole-local moves/copies
+    seen = set()
+    while l not in seen:
+        seen.add(l)
+        ds = body.defs.get(l, [])
+        if len(ds) == 1 and ds[0][0] == "stmt" and ds[0][3]["s"] == "assign" and ds[0][3]["rv"]["k"] == "use":
+            pl = op_place(ds[0][3]["rv"]["op"])
+            if pl is not None and not pl["p"]:
+                l = pl["l"]
+                continue
+        break
     best = None
     for kind, bb, j, x in body.defs.get(l, []):
         if kind != "call":
@@ -265,6 +276,8 @@ def check_loops(ctx, long_polls):
     ctx.require(R6, not rec, "-", "no recursion in the steady-state call graph (%s)" % rec, ["recursion"])
     n = 0
     for k in sorted(reach):
+        if prog.absorbed(k):
+            continue   # new helper, examined inside its callers' inlined views
         b = prog.body(k)
         if b.crate not in ("acmed", "acme_common"):
             continue
@@ -276,22 +289,19 @@ def check_loops(ctx, long_polls):
                 continue
             # per-loop bound arguments
             if k == RC + "::{closure#0}":
-                nr = b.locals_named("new_reg")
-                sets = assigns_const_to(b, nr[0], lambda c: c.get("bool") is True) if nr else []
-                sset = set(scc)
-                # every cycle of the loop passes `new_reg = true`: removing those blocks leaves no cycle through the loop head
-                rem = set(sets)
-                sub = [x for x in scc if x not in rem]
-                cyc = has_cycle(b, sub, excluding=yield_and_next(b))
-                guard_edges = []
-                for sbb, neg in switches_on(b, nr[0]) if nr else []:
-                    t, f = bool_edges(b, sbb)
-                    if neg:
-                        t, f = f, t
-                    guard_edges.append((sbb, f))   # edge taken when new_reg is false
-                ok2, hit = unreachable_without(b, sets, removed_edges=guard_edges)
-                ctx.require(R6, bool(sets) and not cyc and ok2, where(b, scc[0]),
-                            "new-order loop turns at most twice: every back edge sets new_reg=true and is guarded by !new_reg", [k, "new-order-loop"])
+                # a latch (`new_reg` today; found by its role): every cycle of the loop passes `latch = true`, and those
+                # assignments are reachable only while the latch is still false => at most two turns
+                from ..util import latch_flags
+                regs_ = b.calls_to("acmed::account::Account::register")
+                good = False
+                for l, (sets, tr, fl) in latch_flags(b, [c.bb for c in regs_]).items():
+                    sub = [x for x in scc if x not in set(sets)]
+                    cyc = has_cycle(b, sub, excluding=yield_and_next(b))
+                    ok2, hit = unreachable_without(b, sets, removed_edges=fl)
+                    if not cyc and ok2:
+                        good = True
+                ctx.require(R6, good, where(b, scc[0]),
+                            "new-order loop turns at most twice: every back edge sets a latch to true and is guarded by the latch being false", [k, "new-order-loop"])
             elif k == RENEW + "::{closure#0}":
                 sub = [x for x in scc if x not in set(long_polls)]
                 cyc = has_cycle(b, sub, excluding=yield_and_next(b))
